@@ -206,6 +206,14 @@ def _exec_case(case, g, M, stl, pool, ids):
                 if e["exc"]:
                     continue
             else:
+                if ev.get("preload"):
+                    # history: another mesh was saved to and loaded from this very path before the file is replaced by an independent writer
+                    try:
+                        pc = M.mesh.from_arrays(np.array([[0., 0., 0.], [1., 0., 0.], [0., 2., 0.], [5., 5., 5.], [7., 7., 7.]]))
+                        M.mesh.save(pc, path)
+                        M.mesh.load(path)
+                    except Exception:
+                        pass                   # a format that cannot hold a point cloud: no history then
                 with open(path, "w") as fh:
                     fh.write(render(ev["lines"], pool))
             e2 = {"op": "loaded", "f": f, "how": ev["how"], "exc": "", "obs": {}}
@@ -244,7 +252,7 @@ def run(ctx):
     for i, x in enumerate(h for h in r.records if h.get("k") == "W"):
         m = x["m"]
         cases.append({"id": "ref-%d" % i, "given": {"family": "reference-writer", "m0": {"V": m["V"], "E": m["E"], "F": m["F"], "C": m["C"]}},
-                      "events": [{"f": x["f"], "how": "reference", "lines": x["lines"]}]})
+                      "events": [{"f": x["f"], "how": "reference", "lines": x["lines"], "preload": i % 2}]})
     # (i) + (iii) files written by mouette
     reps = 6 if thorough else 2
     for name, s in _shapes(rng, thorough):
